@@ -172,7 +172,31 @@ def _strategy(draw):
             build["templates"][rd["resname"]] = pts
         if draw(st.integers(0, 3)) == 0:
             build["volumes"][rd["resname"]] = draw(st.sampled_from([0.35, 0.5, 0.72]))
-    return {"kind": "system", "moltypes": moltypes, "molecules": molecules, "build": build,
+    synonym = None
+    if variant is None and isomer is None and base["vs"] is None and len(base["atoms"]) >= 1 and draw(st.integers(0, 4)) == 0:
+        # the first residue also occurs under a second name (RS): same atoms and bonds, its own [ template ] entry
+        # with the same coordinates, and a [ volumes ] entry under the second name only
+        import copy
+        syn = copy.deepcopy(base)
+        syn["resname"] = "RS"
+        hit = False
+        for mt in moltypes:
+            for k, rd in enumerate(mt["residues"]):
+                if rd["resname"] == base["resname"] and draw(st.booleans()):
+                    mt["residues"][k] = syn
+                    hit = True
+        if hit:
+            natoms = len(base["atoms"])
+            pts = build["templates"].get(base["resname"]) or [[round(0.2 * k + draw(st.integers(-5, 5)) / 100.0, 3),
+                                                               round(draw(st.integers(-20, 20)) / 100.0, 3),
+                                                               round(draw(st.integers(-20, 20)) / 100.0, 3)] for k in range(natoms)]
+            build["templates"].pop(base["resname"], None)
+            build["templates"][base["resname"]] = pts
+            build["templates"]["RS"] = pts
+            build["volumes"].pop(base["resname"], None)
+            build["volumes"]["RS"] = draw(st.sampled_from([0.35, 0.61, 0.72]))
+            synonym = base["resname"]
+    return {"kind": "system", "moltypes": moltypes, "molecules": molecules, "build": build, "synonym": synonym,
             "variant": variant is not None, "rng": draw(st.integers(0, 2**31 - 1)),
             "skip_filter": draw(st.integers(0, 2)) == 0}
 
@@ -495,6 +519,11 @@ def check(spec, ctx):
             if not (vol > 0) or not math.isfinite(vol):
                 raise Violation("volume:not_positive", f"residue {rd['resname']}: {vol}")
             user_vol = spec["build"]["volumes"].get(rd["resname"])
+            if spec.get("synonym") == rd["resname"]:
+                # the size given under the second name belongs to the same template: what the residues under the
+                # first name get is not said
+                ctx.label("template_under_two_names")
+                user_vol = vol
             if user_vol is not None and abs(vol - user_vol) > 1e-12:
                 raise Violation("volume:user_value_not_used", f"residue {rd['resname']}: size {vol}, build file says {user_vol}")
             if user_vol is None:
